@@ -86,8 +86,8 @@ def _contents(kind, b):
 
 
 def _dict_op(inp, i, op, b, ref):
-    k = inp.choice('k%d' % i, 3)         # keys are case-split (hashing concretises them anyway)
-    k2 = inp.choice('kk%d' % i, 3)
+    k = inp.choice('k%d' % i, 3) if op not in ('clear', 'len') else 0        # keys are case-split (hashing concretises them anyway)
+    k2 = inp.choice('kk%d' % i, 3) if op == 'update' else 0
     v, d = _elt(inp, 'v%d' % i, 4), _elt(inp, 'd%d' % i, 4)
     D = dict(_doApply=True)
     return {
@@ -109,8 +109,8 @@ def _dict_op(inp, i, op, b, ref):
 
 
 def _set_op(inp, i, op, b, ref):
-    k = inp.choice('k%d' % i, 3)
-    k2 = inp.choice('kk%d' % i, 3)
+    k = inp.choice('k%d' % i, 3) if op not in ('clear', 'len', 'pop_single') else 0
+    k2 = inp.choice('kk%d' % i, 3) if op in ('update', 'reset') else 0
     D = dict(_doApply=True)
     return {
         'add': (lambda: b.add(k, **D), lambda: ref.add(k)),
@@ -213,7 +213,7 @@ def _b1_params(ks, kinds=('list', 'dict', 'set', 'counter', 'queue', 'pqueue')):
     return out
 
 
-@obligation('B1', props=('C15',), quick=_b1_params((1, 2)), thorough=_b1_params((1, 2, 3)),
+@obligation('B1', props=('C15',), quick=_b1_params((1, 2)), thorough=_b1_params((1, 2, 3)), budget=800000,
             stubs=('none: real battery classes called with _doApply=True',),
             bounds='operation sequences of length <=3 over all public methods; elements/keys 0..2, values 0..4, positions -3..3, maxsize 0..2; prefix state = 2 arbitrary appends/puts/sets')
 def B1(inp, kind, k, first=None):
